@@ -10,6 +10,7 @@ package zzverif
 
 import (
 	"math/big"
+	"reflect"
 	"regexp"
 	"strings"
 	"time"
@@ -129,3 +130,47 @@ func EnvLog() []string { return nil }
 
 // Tag names the object x points to, so that environment stubs can report which object they were handed.
 func Tag(x interface{}, name string) {}
+
+// JSONTags is encoding/json's view of a struct type: one "GoField|key|options|type"
+// entry per field the codec considers (read from the struct tags of the current
+// source by the engine; by reflection natively).
+func JSONTags(x interface{}) []string {
+	t := reflect.TypeOf(x)
+	if t.Kind() == reflect.Ptr {
+		t = t.Elem()
+	}
+	var out []string
+	var walk func(t reflect.Type)
+	walk = func(t reflect.Type) {
+		for i := 0; i < t.NumField(); i++ {
+			f := t.Field(i)
+			tag := f.Tag.Get("json")
+			if f.Anonymous && tag == "" {
+				ft := f.Type
+				if ft.Kind() == reflect.Ptr {
+					ft = ft.Elem()
+				}
+				if ft.Kind() == reflect.Struct {
+					walk(ft)
+					continue
+				}
+			}
+			if f.PkgPath != "" {
+				continue
+			}
+			key, opts := tag, ""
+			if i := strings.Index(tag, ","); i >= 0 {
+				key, opts = tag[:i], tag[i+1:]
+			}
+			if key == "" {
+				key = f.Name
+			}
+			out = append(out, f.Name+"|"+key+"|"+opts+"|"+f.Type.String())
+		}
+	}
+	walk(t)
+	return out
+}
+
+// JSONEncoded lists the values handed to json.Encoder.Encode so far (engine ghost; nil natively).
+func JSONEncoded() []interface{} { return nil }
